@@ -85,6 +85,69 @@ def eval_variant(args):
     return (vname, prop, "silent", "")
 
 
+SEEDED_DIR = os.path.join(os.path.dirname(os.path.dirname(os.path.abspath(__file__))), "seeded")
+
+
+def seed_overrides(root, patchfile):
+    """Text of the files a recorded seeded change touches, with the change applied - computed on
+    copies in a temporary directory (removed at once); None when the patch no longer applies."""
+    import re
+    import shutil
+    import subprocess
+    import tempfile
+    with open(patchfile, encoding="utf-8") as fh:
+        files = re.findall(r"^\+\+\+ b/(\S+)", fh.read(), flags=re.M)
+    tmp = tempfile.mkdtemp(prefix="verif_seed_")
+    try:
+        for f in files:
+            src = os.path.join(root, f)
+            if os.path.exists(src):
+                os.makedirs(os.path.dirname(os.path.join(tmp, f)), exist_ok=True)
+                shutil.copy(src, os.path.join(tmp, f))
+        r = subprocess.run(["patch", "-p1", "-s", "-f", "--no-backup-if-mismatch", "-F0", "-i", os.path.abspath(patchfile)],
+                           cwd=tmp, capture_output=True, text=True)
+        if r.returncode != 0:
+            return None
+        out = {}
+        for f in files:
+            if f.endswith(".py") and f.startswith("src/"):
+                with open(os.path.join(tmp, f), encoding="utf-8") as fh:
+                    out[f] = fh.read()
+        return out
+    finally:
+        shutil.rmtree(tmp, ignore_errors=True)
+
+
+def seeded_for(prop=None):
+    import glob
+    import json
+    out = []
+    for meta in sorted(glob.glob(os.path.join(SEEDED_DIR, "*", "meta.json"))):
+        with open(meta, encoding="utf-8") as fh:
+            m = json.load(fh)
+        if prop is None or m.get("breaks_property") == prop:
+            out.append((m["id"], m["breaks_property"]))
+    return out
+
+
+def eval_seed(args):
+    sid, prop, root = args
+    ov = seed_overrides(root, os.path.join(SEEDED_DIR, sid, "patch.diff"))
+    if ov is None:
+        return (sid, prop, "skipped", "recorded change no longer applies to this tree")
+    try:
+        sink = _run(prop, root, ov)
+    except Exception as exc:  # pylint: disable=broad-except
+        return (sid, prop, "error", f"{type(exc).__name__}: {exc}")
+    bad = [o for o in sink.obs if o.verdict == VIOLATED]
+    unk = [o for o in sink.obs if o.verdict == UNRECOGNISED]
+    if bad:
+        return (sid, prop, "detected", f"{bad[0].rule} [{bad[0].key}] {bad[0].msg[:160]}")
+    if unk:
+        return (sid, prop, "unrecognised", f"{unk[0].rule}: {unk[0].msg[:160]}")
+    return (sid, prop, "missed", "")
+
+
 def jobs_for(prop=None):
     from .variants_data import VARIANTS
     out = []
@@ -105,24 +168,50 @@ def run_jobs(jobs, root, workers=None):
 
 
 def run_for_property(prop, root, sink):
-    """Thorough tier: evaluate this property's variants against the current tree."""
+    """Thorough tier: evaluate this property's in-memory variants and the recorded seeded
+    changes against the current tree.  The outcome is a measure of the check's sensitivity on
+    this tree, not of the tree: it is reported (evidence + SENSITIVITY lines) and never changes
+    the verdict on the tree."""
     t0 = time.time()
-    res = run_jobs(jobs_for(prop), root)
-    tally = {}
+    workers = min(16, os.cpu_count() or 4)
+    vargs = [(n, p, root) for n, p in jobs_for(prop)]
+    sargs = [(n, p, root) for n, p in seeded_for(prop)]
+    if len(vargs) + len(sargs) <= 2:
+        res = [eval_variant(a) for a in vargs]
+        sres = [eval_seed(a) for a in sargs]
+    else:
+        with ProcessPoolExecutor(max_workers=workers) as ex:
+            fv = ex.map(eval_variant, vargs, chunksize=2)
+            fs = ex.map(eval_seed, sargs, chunksize=1)
+            res, sres = list(fv), list(fs)
+    tally, stally, warnings = {}, {}, []
     for _n, _p, st, _d in res:
         tally[st] = tally.get(st, 0) + 1
+    for _n, _p, st, _d in sres:
+        stally[st] = stally.get(st, 0) + 1
     for n, p, st, d in res:
         if st in ("missed", "unrecognised"):
-            sink.unknown("VAR", f"variant:{n}", None, f"seeded breaking edit '{n}' is no longer detected ({st}): lost sensitivity {d}")
+            warnings.append(f"seeded breaking edit '{n}' is not detected on this tree ({st}) {d}")
         elif st in ("false-alarm", "benign-unrecognised"):
-            sink.unknown("VAR", f"variant:{n}", None, f"behaviour-preserving edit '{n}' makes the check fire ({st}): {d}")
+            warnings.append(f"behaviour-preserving edit '{n}' makes the check fire ({st}): {d}")
         elif st == "error":
-            sink.unknown("VAR", f"variant:{n}", None, f"variant '{n}' crashed the analysis: {d}")
+            warnings.append(f"variant '{n}' crashed the analysis: {d}")
+    for n, p, st, d in sres:
+        if st in ("missed", "unrecognised", "error"):
+            warnings.append(f"recorded seeded change '{n}' is not detected on this tree ({st}) {d}")
+    for w in warnings:
+        print(f"SENSITIVITY property={prop} {w}")
     return {
         "variants": {
             "evaluated": len(res),
             "tally": tally,
             "wall_s": round(time.time() - t0, 2),
             "samples": [{"variant": n, "status": st, "detail": d} for n, _p, st, d in res][:40],
-        }
+        },
+        "seeded_changes": {
+            "evaluated": len(sres),
+            "tally": stally,
+            "results": [{"id": n, "status": st, "detail": d} for n, _p, st, d in sres],
+        },
+        "sensitivity_warnings": warnings,
     }
